@@ -1,3 +1,4 @@
+use std::collections::BTreeMap;
 use std::pin::Pin;
 use std::time::Duration;
 use tokio::time::Instant;
@@ -72,11 +73,12 @@ where
         result
     }
 
-    pub fn progress_to(&mut self, next: K) {
-        self.queue.progress_to(next);
+    pub fn progress_to(&mut self, next: K) -> BTreeMap<K, V> {
+        let stale = self.queue.progress_to(next);
         // Always update timeout after progress since it affects what's considered
         // "next"
         self.update_timeout();
+        stale
     }
 
     pub fn next(&self) -> &K {
